@@ -6,8 +6,10 @@
       subtraction mixes a byte length with a character count, the string's
       length used for clamping is chars().count(); no byte-based string
       operation at all in substr's reach;
-  K2  substr slices only through chars().skip(start).take(count).collect() on
-      operand 0's payload — no byte-range slicing, split_at, get(range);
+  K2  the text substr returns is made of characters of operand 0's payload taken
+      through its chars() iterator and selected by position only (collect of
+      chars()[.skip][.take], or a String that only receives push(c) with c from
+      next() of chars()[.enumerate()]) — no byte-range slicing, split_at, get(range);
       start/length come from operands 1 and 2 through as_i64 (non-integers are Err);
   K3  cat: one forward pass over the operands; per operand kind (variant
       specialisation of the per-operand code, helpers included) a String
@@ -18,7 +20,9 @@
   K4  the string form (to-string function) per kind: Null → "null", Bool → its
       Display, Number → the JSON text of the number, String → itself, Object →
       "[object Object]", Array → the elements' forms joined with ",", where a null
-      element contributes "" and every other element recurses.
+      element contributes "" and every other element recurses (join(map(..)), or —
+      for any way of appending to one buffer — the emission table
+      (first | later) × (null | other) read by rules/joinloop.py EmissionTable).
   K5  clamping can neither trap nor wrap: no raw integer Add/Sub/Mul/Shl/Neg
       (checked-by-assert or unchecked) in substr's reach — index arithmetic goes
       through checked_* / saturating_* / min / max / unsigned_abs / try_into, whose
@@ -356,12 +360,12 @@ def string_form_clauses(ctx, facts, roles, ts, cfg, K="K4"):
                     continue
                 # any other spelling (peeled first element, helpers that receive the buffer or the element, flags):
                 # the emission table of the array arm — (first | later) × (null | other) → what is appended
-                tab = JL.EmissionTable(facts, ts)
-                if JL.judge_table(ctx, tab, K, cfg, ts.where(), ts.key):
-                    continue
                 ev = JL.shared_state_across_nesting(facts, ts)
                 if ev:
                     ctx.fail(K + ".array-element", "string form of Array|nested arrays (%s)" % cfg, ev, where=ts.where(), fn=ts.key)
+                    continue
+                tab = JL.EmissionTable(facts, ts)
+                if JL.judge_table(ctx, tab, K, cfg, ts.where(), ts.key):
                     continue
                 ctx.unread(K + ".array-join", key, "the array arm is neither join(map(..)) nor readable as appends to one buffer: %s" % "; ".join(tab.unread[:2]), where=ts.where(), fn=ts.key)
                 continue
